@@ -73,6 +73,141 @@ pub fn alphabets(tier: Tier) -> Vec<(Alphabet, Limits, bool)> {
     v
 }
 
+
+// ---------------------------------------------------------------------------------------------- part 2: crash points
+
+fn parse_export(bytes: &[u8]) -> Result<std::collections::BTreeSet<String>, String> {
+    let s = std::str::from_utf8(bytes).map_err(|_| "not UTF-8".to_string())?;
+    let mut set = std::collections::BTreeSet::new();
+    for l in s.split_inclusive('\n') {
+        if !l.ends_with('\n') {
+            return Err(format!("last line not newline-terminated: {:?}", l));
+        }
+        let f: Vec<&str> = l.trim_end_matches('\n').split(' ').collect();
+        if f.len() != 4 || !(f[0] == "4" || f[0] == "6") || f[1].len() != 40 || f[2].parse::<u64>().is_err() || f[3].parse::<u64>().is_err() {
+            return Err(format!("malformed line {:?}", l));
+        }
+        if !set.insert(l.to_string()) {
+            return Err(format!("duplicate line {:?}", l));
+        }
+    }
+    Ok(set)
+}
+
+fn export_child(dir: &std::path::Path, n: usize, reader: bool, kill_at: usize) -> (Option<i32>, String) {
+    let exe = std::env::current_exe().unwrap().with_file_name("aqv_export");
+    let mut cmd = std::process::Command::new(exe);
+    cmd.arg(dir).arg(n.to_string()).arg(if reader { "1" } else { "0" });
+    if kill_at > 0 {
+        cmd.env("AQV_KILL_AT", kill_at.to_string());
+    }
+    let out = cmd.output().unwrap_or_else(|e| machinery_failure(&format!("cannot run aqv_export: {}", e)));
+    (out.status.code(), String::from_utf8_lossy(&out.stdout).to_string())
+}
+
+pub fn export_crash(run: &mut Run, thorough: bool) {
+    let sizes: Vec<usize> = if thorough { vec![0, 1, 3, 300, 3000, 20_000] } else { vec![0, 1, 3, 300, 3000] };
+    let mut crash_points = 0u64;
+    let mut histories = 0u64;
+    for n in sizes {
+        for prev_n in [None, Some(2usize), Some(500)] {
+            histories += 1;
+            let dir = tempfile::tempdir().unwrap();
+            let path = dir.path().join("export.txt");
+            // previous complete export (from a different swarm), produced by the real code
+            let prev: Option<std::collections::BTreeSet<String>> = match prev_n {
+                None => None,
+                Some(pn) => {
+                    let (c, _) = export_child(dir.path(), pn, false, 0);
+                    if c != Some(0) {
+                        machinery_failure("previous export could not be produced");
+                    }
+                    Some(parse_export(&std::fs::read(&path).unwrap()).unwrap_or_else(|e| machinery_failure(&format!("previous export malformed: {}", e))))
+                }
+            };
+            let prev_bytes = prev.as_ref().map(|_| std::fs::read(&path).unwrap());
+            // uninterrupted run: number of steps and the complete new export
+            let (c, out) = export_child(dir.path(), n, false, 0);
+            let steps: usize = out.lines().find_map(|l| l.strip_prefix("STEPS ")).and_then(|s| s.trim().parse().ok()).unwrap_or(0);
+            if c != Some(0) || steps < 2 {
+                machinery_failure(&format!("uninterrupted export failed (code {:?}, steps {})", c, steps));
+            }
+            let new = match parse_export(&std::fs::read(&path).unwrap_or_default()) {
+                Ok(s) => s,
+                Err(e) => {
+                    run.violation("udp/export/malformed", format!("complete export of {} torrents is malformed: {}", n, e), json!({"engine": "export-crash", "torrents": n}));
+                    continue;
+                }
+            };
+            if new.len() != n {
+                run.violation("udp/export/line-count", format!("export of {} torrents with peers has {} lines", n, new.len()), json!({"engine": "export-crash", "torrents": n}));
+            }
+            // a process kill immediately before every file-system-mutating call, and after the last one
+            for k in 1..=steps + 1 {
+                crash_points += 1;
+                // restore the previous state
+                let _ = std::fs::remove_file(&path);
+                let _ = std::fs::remove_file(dir.path().join("export.tmp"));
+                if let Some(b) = &prev_bytes {
+                    std::fs::write(&path, b).unwrap();
+                }
+                let (code, out) = export_child(dir.path(), n, false, k);
+                let killed = out.contains("KILLED-BEFORE");
+                if (k <= steps) != killed || (killed && code != Some(9)) {
+                    machinery_failure(&format!("crash point {} of {}: killed={} code={:?}", k, steps, killed, code));
+                }
+                let detail = json!({"engine": "export-crash", "torrents": n, "previous_export_torrents": prev_n, "kill_before_step": k, "steps": steps, "killed_at": out.lines().find(|l| l.starts_with("KILLED")).unwrap_or("")});
+                match std::fs::read(&path) {
+                    Err(_) => {
+                        if prev.is_some() {
+                            run.violation("udp/export/crash-loses-file", format!("process killed before step {} of {}: the configured path no longer exists although a previous export was there", k, steps), detail);
+                        }
+                    }
+                    Ok(b) => match parse_export(&b) {
+                        Ok(set) => {
+                            if Some(&set) != prev.as_ref() && set != new {
+                                run.violation("udp/export/crash-mixed-content", format!("process killed before step {} of {}: the file at the configured path is neither the previous nor the new export ({} lines)", k, steps, set.len()), detail.clone());
+                            }
+                            if prev.is_none() && k <= steps && set == new && steps > 2 && k < steps {
+                                run.violation("udp/export/visible-before-rename", format!("new export visible at the configured path although the process was killed before step {} of {}", k, steps), detail);
+                            }
+                        }
+                        Err(e) => run.violation("udp/export/crash-torn-file", format!("process killed before step {} of {}: the file at the configured path is torn: {}", k, steps, e), detail),
+                    },
+                }
+            }
+            // concurrent reader during uninterrupted exports
+            let _ = std::fs::remove_file(&path);
+            if let Some(b) = &prev_bytes {
+                std::fs::write(&path, b).unwrap();
+            }
+            if n >= 300 {
+                let (c, out) = export_child(dir.path(), n, true, 0);
+                if c != Some(0) {
+                    machinery_failure("reader run failed");
+                }
+                let distinct: usize = out.lines().find_map(|l| l.strip_prefix("READER-DISTINCT ")).and_then(|s| s.trim().parse().ok()).unwrap_or(0);
+                for i in 0..distinct {
+                    let b = std::fs::read(dir.path().join(format!("seen-{}.txt", i))).unwrap_or_default();
+                    let ok = match parse_export(&b) {
+                        Ok(set) => Some(&set) == prev.as_ref() || set == new,
+                        Err(_) => false,
+                    };
+                    if !ok {
+                        run.violation("udp/export/reader-saw-partial-file", format!("a reader polling the configured path during exports of {} torrents saw a file that is neither the previous nor the new complete export ({} bytes)", n, b.len()), json!({"engine": "export-crash", "torrents": n, "reader": true}));
+                    }
+                }
+                run.add("reader_distinct_contents", distinct as u64);
+            }
+        }
+    }
+    run.set("export_histories", histories);
+    run.set("crash_points", crash_points);
+    run.add("states", crash_points);
+    run.add("transitions", crash_points);
+    run.add("traces_validated_against_impl", crash_points);
+}
+
 pub fn main(args: &Args) -> ! {
     let mut run = Run::new(args, "model_checking");
     run.set("engine", "seqmc over aquatic_udp::swarm::TorrentMaps with statistics + peer_clients + scrape export enabled; tally = the statistics worker's own fold over the drained channel");
@@ -82,7 +217,9 @@ pub fn main(args: &Args) -> ! {
     if let Some(p) = &args.replay {
         let r = load_replay(p);
         let systems: Vec<UdpSys> = alphabets(Tier::Thorough).into_iter().map(|x| UdpSys(x.0)).collect();
-        if !seqmc::replay_from_file(&mut run, &r, &systems) {
+        if r["detail"]["engine"] == "export-crash" {
+            export_crash(&mut run, true);
+        } else if !seqmc::replay_from_file(&mut run, &r, &systems) {
             machinery_failure("replay file does not belong to this check");
         }
         run.finish();
@@ -90,5 +227,7 @@ pub fn main(args: &Args) -> ! {
     for (a, lim, need_fix) in alphabets(args.tier) {
         seqmc::run_bfs(&mut run, &UdpSys(a), &lim, need_fix);
     }
+    export_crash(&mut run, args.tier.thorough());
+    run.sample(json!({"crash_point": "process killed immediately before the rename of export.tmp onto the configured path", "expected": "previous complete export still in place"}));
     run.finish();
 }
